@@ -35,6 +35,10 @@ def item_problem(it):
         return f"position is not a location of the text of the file it names ({it.pos[4:]})"
     if is_syntax and it.pos != "in":
         return "a syntax error carries the whole-file position (errors.Error.Display cannot render it)"
+    if it.tag == "AD" and it.pos == "whole-nofile" and str(getattr(it, "kind", "")) == "3" and getattr(it, "syntax_clean", False):
+        # (judged on syntactically valid programs whose only error this is: with syntax errors, or after another error, the
+        # analyzer works on recovery nodes and values that carry no position)
+        return "the only error of a syntactically valid program names no file and no location (the all-zero span)"
     if not it.ord:
         return "start lies after end"
     if it.disp != "ok":
@@ -260,6 +264,17 @@ def run(ctx):
         ctx.violation({"kind": "build", "log": st.get("log", "")[-3000:]},
                       "harness, table dump or Lean model no longer builds against /repo", no_input=True)
         return
+    # open findings: replayed, printed as KNOWN-FINDING while their witness still fails
+    for e in core.load_known("C08"):
+        w = e.get("witness", {})
+        if e.get("status") == "open" and w.get("kind") == "position":
+            r = tg.run_total([{"main": tg.b(w["main"]), "mods": {}}], limit=20)[0]
+            if r is not None and any(it.tag == "AD" and it.kind == 3 and it.pos == "whole-nofile" for it in r.items):
+                ctx.known(e["id"], e["what"])
+            else:
+                ctx.note(f"witness of open finding {e['id']} no longer fails as recorded")
+    ctx.assumptions.append("an error at the all-zero span is judged when it is the only error of a syntactically valid program; as a "
+                           "follow-up of other errors it is the open finding A17 (counted under pos=whole-nofile)")
     seen = {}
     toks = tg.token_texts()
     corp = tg.corpus_files()
